@@ -699,6 +699,11 @@ def f6_defs(tier):
     lw["tasks"]["l0"]["next"][0]["publish"].append({"v": RES})
     lw["output"] = [{"v": "<% ctx(v) %>"}, {"n": "<% ctx(n) %>"}]
     out.append(("loop-publish", lw))
+    # dictionary-valued variable republished downstream (nested containers)
+    out.append(("dict-republish", WF({
+        "a": T([N(S, "b", publish=[("x", {"b": RES})])]),
+        "b": T([N(S, "c", publish=[("x", {"c": RES})])]),
+        "c": T()}, vars=[{"x": {"a": 1}}], output=[{"x": "<% ctx(x) %>"}])))
     if tier != "quick":
         add("fj-two-level", {
             "a": T([N(S, ["b", "c"], publish=[("u", RES)])]),
